@@ -1,4 +1,19 @@
 TEXT = {
+ 'C02': dict(
+  design_ref='DESIGN.md §4 C02',
+  technique='property-based testing: generated GPT/MBR tables (sparse unordered indices, 3 spellings, UTF-16 names, >2 TiB sparse disks, rewrites) round-tripped through gpt/mbr/partition.Read and Disk.GetPartition, and cross-checked by an independent GPT/MBR parser (CRCs, backup mirror, protective MBR)',
+  level_text='Generated search with two oracles: field-by-field round trip and an independent on-disk validity parser that shares no code with the library. Exploration over a very large table space; sampled, not exhaustive.',
+  level_note='Trusts the harness GPT/MBR parser (UEFI layout, hash/crc32) and the spec-derived normalisation (End = Start + Size/LSS - 1).'),
+ 'C09': dict(
+  design_ref='DESIGN.md §4 C09',
+  technique='fault enumeration over generated (old,new) GPT pairs: the WriteAt/Sync log of Table.Write is replayed into every crash state (epoch prefix x sector-subset family, exhaustive 2^n for n<=12) and partition.Read must return exactly old or exactly new',
+  level_text='For each generated pair every crash state of the stated family is enumerated and checked; pairs themselves are sampled by rapid. Fault enumeration: complete inside the family per pair, not over all pairs.',
+  level_note='Crash model = per-logical-sector persistence inside one sync epoch, strict ordering across Sync(); the device records Sync() via the same type assertion the library uses for *os.File.'),
+ 'C15': dict(
+  design_ref='DESIGN.md §4 C15',
+  technique='fault enumeration: every GPT header field x boundary values x CRC recomputed/stale x primary/backup/both, 2-field size combinations, entry and MBR-slot corruptions, truncations, plus random images; oracle = no panic, watchdog, heap-allocation bound, returned tables only from CRC-valid data (independent parser); thorough adds a native go fuzz campaign',
+  level_text='Finite fault families enumerated on each generated valid base image (quick: every 4th member with a seeded phase; thorough: all), run in memory-capped child processes with a per-case journal so a dying child still yields a replay.',
+  level_note='Trusts the harness CRC recomputation and independent parser; allocation is measured with runtime/metrics.'),
  'C10': dict(
   design_ref='DESIGN.md §4 C10',
   technique='property-based testing: rapid-generated Read/Seek/Close sequences against a bytes.Reader-equivalent position model on files of known content, 13 filesystem variants',
